@@ -86,6 +86,37 @@ def atomicity_items():
                     inner_calls = [ast.unparse(x.func) for x in ast.walk(n) if isinstance(x, ast.Call)]
                     if "to_code" in inner_calls:
                         order_ok = False
+    # the path gen writes to is the path whose non-existence main's guard established
+    writes_to = []
+    for n in ast.walk(gfn):
+        if isinstance(n, ast.Call) and ast.unparse(n.func) == "open":
+            mode = n.args[1] if len(n.args) > 1 else next((k.value for k in n.keywords if k.arg == "mode"), None)
+            mtxt = mode.value if isinstance(mode, ast.Constant) and isinstance(mode.value, str) else (None if mode is None else "?")
+            if mtxt is not None and (mtxt == "?" or any(c in mtxt for c in "wax+")):
+                writes_to.append(ast.unparse(n.args[0]) if n.args else "?")
+    reassigned = any(isinstance(n, (ast.Assign, ast.AugAssign, ast.AnnAssign)) and any(
+        isinstance(t, ast.Name) and t.id == "output_filename" for t in (n.targets if isinstance(n, ast.Assign) else [n.target])) for n in ast.walk(gfn))
+    mfn, _, _ = V.find_def_dotted("doctrans.__main__", "main")
+    gen_calls = [n for n in ast.walk(mfn) if isinstance(n, ast.Call) and ast.unparse(n.func) == "gen"]
+    passed = [ast.unparse(k.value) for c in gen_calls for k in c.keywords if k.arg == "output_filename"]
+    for c in gen_calls:
+        if any(k.arg is None and ast.unparse(k.value) == "args_dict" for k in c.keywords):
+            # gen(**args_dict): args_dict must be the plain copy of vars(args), and the arm that calls gen must not touch args / args_dict
+            defs = [ast.unparse(n.value) for n in ast.walk(mfn) if isinstance(n, ast.Assign) and any(isinstance(t, ast.Name) and t.id == "args_dict" for t in n.targets)]
+            arm = next((n for n in ast.walk(mfn) if isinstance(n, ast.If) and any(x is c for b in n.body for x in ast.walk(b))
+                        and "'gen'" in ast.unparse(n.test)), None)
+            touched = arm is None or any(
+                (isinstance(x, ast.Call) and ast.unparse(x.func) == "setattr") or
+                (isinstance(x, (ast.Assign, ast.AugAssign)) and any(ast.unparse(t).startswith(("args", "args_dict")) for t in (x.targets if isinstance(x, ast.Assign) else [x.target])))
+                for b in arm.body for x in ast.walk(b))
+            if defs == [ast.unparse(ast.parse("{k: v for k, v in vars(args).items() if k != 'command'}", mode="eval"))] and not touched:
+                passed.append("args.output_filename")
+            else:
+                passed.append("args_dict (not a plain copy of vars(args))")
+    ok_path = bool(writes_to) and all(w == "output_filename" for w in writes_to) and not reassigned and passed == ["args.output_filename"] * len(gen_calls) and bool(gen_calls)
+    items.append(("G-guarded-path", ok_path,
+                  "gen writes only to `output_filename` as given (not a transformed path), main passes args.output_filename, and that is the very expression "
+                  "whose non-existence the guard `path.isfile(args.output_filename)` established", {"opens_for_writing": writes_to, "reassigned": reassigned, "main_passes": passed}))
     items.append(("G-render-first", order_ok, "gen renders the module before it opens the output file", "to_code(parsed_ast) is evaluated inside `with open(output_filename, 'a')`"))
     return items
 
